@@ -66,6 +66,38 @@ def crc_part(chk, tier):
     chk.cov["traces_validated_against_impl"] += len(res)
 
 
+def crc_boundary_histories():
+    """Boundary values of the checksum FIELD: an uncompressed REQUIRED INT32 page whose last value is solved so that the
+    IEEE CRC-32 of the page body is exactly 0x00000000 resp. 0xFFFFFFFF (a reader must not read either as 'no checksum')."""
+    import zlib
+    tbl = []
+    for i in range(256):
+        c = i
+        for _ in range(8):
+            c = (c >> 1) ^ 0xEDB88320 if c & 1 else c >> 1
+        tbl.append(c)
+    top = {tbl[i] >> 24: i for i in range(256)}
+    out = []
+    for target in (0x00000000, 0xFFFFFFFF):
+        prefix = b"".join((1000 + 37 * i).to_bytes(4, "little") for i in range(7))
+        r, w = zlib.crc32(prefix) ^ 0xFFFFFFFF, target ^ 0xFFFFFFFF
+        idx, x = [0] * 4, w
+        for i in range(3, -1, -1):
+            idx[i] = top[x >> 24]
+            x = ((x ^ tbl[idx[i]]) << 8) & 0xFFFFFFFF
+        last, st = [], r
+        for i in range(4):
+            last.append(idx[i] ^ (st & 0xFF))
+            st = (st >> 8) ^ tbl[idx[i]]
+        body = prefix + bytes(last)
+        if zlib.crc32(body) != target:
+            continue                       # (the solver is checked against zlib; a wrong solution is simply not used)
+        vals = [list(body[4 * i:4 * i + 4]) for i in range(8)]
+        out.append([{"op": "Create", "cols": [{"name": [99, 48, 48, 48], "type": 1, "rep": 0, "tlen": 0}]},
+                    {"op": "WriteBatch", "c": 0, "n": 8, "withDefs": False, "defs": [0] * 8, "vals": vals}, {"op": "Close"}])
+    return out
+
+
 def damage_part(chk, tier):
     rnd = random.Random(common.seed())
     binary = common.build_harness("h_file")
@@ -73,6 +105,7 @@ def damage_part(chk, tier):
     hs = wcommon.gen_histories(chk, [2, 3], [3, 4], 2, 2, simulate=12 if tier == "quick" else 60, depth=40, workers=4)
     hs = [h for h in hs if wcommon.nontrivial_history(h)][: (5 if tier == "quick" else 40)]
     hs += wcommon.gen_histories(chk, [1], [4], 1, 3, limit=3)
+    hs += crc_boundary_histories()
     # every codec carquet can write; GZIP / ZSTD bodies are opaque to the specification: their page map comes from the
     # layout-only reference parse (page headers, sizes, checksums), their content from the read of the undamaged file
     cfgs = [(c, 64) for c in sorted(wcommon.CODECS)]
